@@ -25,6 +25,14 @@
 (* pre-run, all functions at every sample of a DOE) are deterministic      *)
 (* (AskOwn).                                                               *)
 (*                                                                         *)
+(* Composite algorithms (multi-start, augmented Lagrangian) run            *)
+(* sub-drivers that turn the termination exception of a request into a     *)
+(* sub-result and go on: action Resume (cfg.composite).  A wrapped library *)
+(* that fails is turned by its wrapper into a plain TerminationCriterion:  *)
+(* AlgoReturn("Other").  When gemseo stops the run the result is built     *)
+(* from the recorded history; an algorithm that returns by itself may      *)
+(* report its own point (linear solvers).                                  *)
+(*                                                                         *)
 (* A point is an integer id; NanPt stands for a design vector containing a *)
 (* NaN.  A name is <<function, "val" | "jac">>.  One request is served in  *)
 (* sub-steps held in req.st:                                               *)
@@ -40,7 +48,7 @@ CONSTANTS
 
 NanPt == 0
 Range(s) == {s[i] : i \in 1..Len(s)}
-Causes == {"MaxIter", "Ftol", "Xtol", "Kkt", "MaxTime", "FunctionIsNan", "DesvarIsNan", "Normal"}
+Causes == {"MaxIter", "Ftol", "Xtol", "Kkt", "MaxTime", "FunctionIsNan", "DesvarIsNan", "Normal", "Other"}
 
 VARIABLES
   funcs,      \* the functions of the problem: sequence of names, the objective first (never changes)
@@ -242,10 +250,12 @@ NextSample ==
        ELSE Stop("Normal") /\ UNCHANGED <<at, doev>>
   /\ UNCHANGED <<funcs, cfg, dbv, ctr, lst, resv, nexec, histv, origPts, raised>>
 
-(* --- the optimization algorithm returns by itself --- *)
-AlgoReturn ==
+(* --- the optimization algorithm returns by itself ("Normal"), or the wrapped library fails and the
+       wrapper turns the failure into a plain TerminationCriterion ("Other") --- *)
+AlgoReturn(c) ==
   /\ phase = "running" /\ cfg.kind = "opt" /\ req.st = "none"
-  /\ Stop("Normal")
+  /\ c \in {"Normal", "Other"}
+  /\ Stop(c)
   /\ UNCHANGED <<funcs, cfg, dbv, ctr, lst, at, doev, resv, nexec, histv, origPts, raised>>
 
 (* --- a composite algorithm (multi-start, augmented Lagrangian) runs sub-drivers which convert the
@@ -256,11 +266,13 @@ Resume ==
   /\ UNCHANGED <<funcs, cfg, dbv, ctr, lst, req, todo, at, doev, resv, nexec, histv, origPts, raised>>
 
 (* --- _get_result / _get_early_stopping_result: when gemseo stopped the run the result is built from
-       the recorded history; an algorithm that returns by itself may report its own point --- *)
+       the recorded history (which recorded point is the optimum is property C04; no optimum is
+       reported only if no objective value was recorded); an algorithm that returns by itself may
+       report its own point --- *)
 Recorded == {p \in DOMAIN outs : <<Obj, "val">> \in outs[p]}
 BuildResult(x) ==
   /\ phase = "terminated"
-  /\ stop # "Normal" => x \in (IF Recorded = {} THEN {NanPt} ELSE Recorded)
+  /\ stop # "Normal" => (IF x = NanPt THEN Recorded = {} ELSE x \in DOMAIN outs)
   /\ hasResult' = TRUE /\ xopt' = x
   /\ phase' = "built"
   /\ UNCHANGED <<funcs, cfg, dbv, ctr, lst, req, todo, at, doev, stop, nexec, histv, origPts, raised>>
@@ -277,14 +289,14 @@ PostRun ==
   /\ UNCHANGED <<funcs, cfg, dbv, ctr, lst, req, todo, at, doev, stop, resv, histv, origPts, raised>>
 
 (* ------------------------------------------------------------------ configurations explored *)
-CONSTANTS MaxN, NXs, UseDbs, StoreJacs, WithNanPt, Composites
+CONSTANTS MaxN, NXs, UseDbs, StoreJacs, WithNanPt, Composites, Kkts
 PtsN == IF WithNanPt THEN Points \cup {NanPt} ELSE Points
 SeqsOf(S, n) == [1..n -> S]
 ModelCfgs ==
   { [kind |-> "opt", N |-> n, reset |-> r, grad |-> g, useDb |-> u, storeJac |-> sj, stopIfNan |-> TRUE,
-     maxTime |-> TRUE, kkt |-> g, nx |-> nx, x0 |-> x, samples |-> <<>>, composite |-> cp] :
+     maxTime |-> TRUE, kkt |-> (g /\ k), nx |-> nx, x0 |-> x, samples |-> <<>>, composite |-> cp] :
        n \in 1..MaxN, r \in BOOLEAN, g \in BOOLEAN, u \in UseDbs, sj \in StoreJacs, nx \in NXs, x \in Points,
-       cp \in Composites }
+       cp \in Composites, k \in Kkts }
   \cup
   { [kind |-> "doe", N |-> Len(s), reset |-> r, grad |-> g, useDb |-> u, storeJac |-> sj, stopIfNan |-> FALSE,
      maxTime |-> TRUE, kkt |-> FALSE, nx |-> nx, x0 |-> NanPt, samples |-> s, composite |-> FALSE] :
@@ -300,7 +312,8 @@ Next ==
   \/ \E o \in {"ok", "nan", "raise"} : OrigCall(o)
   \/ Store \/ KktPass \/ KktStop
   \/ \E s \in Causes \cup {"none"} : NewIter(s)
-  \/ NextSample \/ AlgoReturn \/ Resume
+  \/ NextSample \/ Resume
+  \/ \E c \in {"Normal", "Other"} : AlgoReturn(c)
   \/ \E x \in PtsN : BuildResult(x)
   \/ ClearListeners \/ PostRun
 Spec == Init /\ [][Next]_vars
@@ -348,13 +361,16 @@ NoListenerLeak ==
   /\ phase \in {"cleared", "postrun"} => nil = nil0
   /\ Cardinality({j \in 1..Len(nil) : nil[j] = "drv"}) <= 1
 
-(* DOE: keys created by this run = first occurrences of the evaluated samples, in generation order;
-   every sample already passed is recorded unless its evaluation raised *)
+(* DOE: keys created by this run = first occurrences of the evaluated samples, in generation order
+   (stated for user functions that do not raise at a point where they also return: a sample skipped at
+   its first occurrence and recorded at a later duplicate takes the place of the duplicate - found by
+   TLC with samples <<1, 2, 1>>); every sample already passed is recorded unless its evaluation raised *)
 Seen == SubSeq(samples, 1, si)
 DoeOrder ==
   (cfg.kind = "doe" /\ cfg.useDb /\ phase \in {"running", "terminated", "built", "cleared", "postrun"}) =>
-     /\ Without(keys, Range(keys0)) =
-          Dedup(SelectSeq(Seen, LAMBDA s : s \in DOMAIN outs /\ s \notin Range(keys0)))
+     /\ (raised \cap DOMAIN outs = {}) =>
+          Without(keys, Range(keys0)) =
+             Dedup(SelectSeq(Seen, LAMBDA s : s \in DOMAIN outs /\ s \notin Range(keys0)))
      /\ \A j \in 1..Len(samples) :
           (j < si \/ (j = si /\ stop = "Normal")) =>
              (samples[j] \in DOMAIN outs \/ samples[j] \in raised \/ samples[j] = NanPt)
